@@ -96,18 +96,19 @@ Theorem C13_micros_roundtrip_inverse : forall n, to_micros (from_micros_utc n) =
 Proof. exact to_micros_from_micros. Qed.
 
 (* ---- Avro: the instant is kept to the microsecond, the value comes back normalised to UTC; instants whose UTC
-   form leaves years 1..9999 are refused, not altered *)
+   form leaves years 1..9999 are refused (the reader cannot build the value), not altered *)
 Theorem C13_avro_keeps_instant : forall d, in_utc_range d = true ->
-  obind (avro_encode d) (avro_decode (String.eqb gen_avro_logical_type "timestamp-micros") gen_avro_guard) = Some (to_utc d)
+  avro_decode (String.eqb gen_avro_logical_type "timestamp-micros") gen_avro_guard (avro_encode d) = Some (to_utc d)
   /\ to_micros (to_utc d) = to_micros d /\ off (to_utc d) = Some 0 /\ valid (to_utc d).
 Proof. intros d H. exact (avro_roundtrip _ gen_avro_guard d H (or_introl eq_refl)). Qed.
 Theorem C13_avro_guard_branch : forall d, in_utc_range d = true -> gen_avro_guard < to_micros d ->
-  obind (avro_encode d) (avro_decode false gen_avro_guard) = Some (to_utc d) /\ to_micros (to_utc d) = to_micros d.
+  avro_decode false gen_avro_guard (avro_encode d) = Some (to_utc d) /\ to_micros (to_utc d) = to_micros d.
 Proof. intros d H Hg. destruct (avro_roundtrip false gen_avro_guard d H (or_intror Hg)) as (A & B & _). exact (conj A B). Qed.
 Theorem C13_avro_utc_unchanged : forall d, valid d -> off d = Some 0 -> in_utc_range d = true /\ to_utc d = d.
 Proof. exact avro_roundtrip_utc. Qed.
-Theorem C13_avro_out_of_range_refused : forall d, in_utc_range d = false -> avro_encode d = None.
-Proof. intros d H. unfold avro_encode. rewrite H. reflexivity. Qed.
+Theorem C13_avro_out_of_range_refused : forall d, in_utc_range d = false ->
+  avro_decode (String.eqb gen_avro_logical_type "timestamp-micros") gen_avro_guard (avro_encode d) = None.
+Proof. exact (avro_out_of_range_refused gen_avro_guard). Qed.
 
 (* ---- the display setting: no storage / comparison / construction operation runs a function that mentions it *)
 Definition storage_ops : list dt_op :=
